@@ -4,6 +4,19 @@ From Coq Require Import List Arith Bool NArith Lia.
 From PV Require Import lib.Str model.Summaries model.LmMatrix gen.Gen_c19.
 Import ListNotations.
 
+(* case analysis on every test of the generated text, keeping the arithmetic meaning of comparisons: an equivalent spelling of a test
+   (`len(s) >= 2` for `len(s) > 1`, `not a <= b` for `a > b`) still proves, a different test does not *)
+Ltac split_ifs :=
+  repeat match goal with
+  | |- context [if Nat.ltb ?a ?b then _ else _] => destruct (Nat.ltb_spec a b)
+  | |- context [if Nat.leb ?a ?b then _ else _] => destruct (Nat.leb_spec a b)
+  | |- context [if Nat.eqb ?a ?b then _ else _] => destruct (Nat.eqb_spec a b)
+  | |- context [if negb (Nat.ltb ?a ?b) then _ else _] => destruct (Nat.ltb_spec a b)
+  | |- context [if negb (Nat.leb ?a ?b) then _ else _] => destruct (Nat.leb_spec a b)
+  | |- context [if negb (Nat.eqb ?a ?b) then _ else _] => destruct (Nat.eqb_spec a b)
+  | |- context [if ?c then _ else _] => destruct c eqn:?
+  end.
+
 Lemma fold_step_app {A B} (step : list B -> A -> list B) (F : A -> list B) :
   (forall acc a, step acc a = acc ++ F a) ->
   forall l init, fold_left step l init = init ++ flat_map F l.
@@ -40,8 +53,7 @@ Proof.
   - cbn [app]. unfold count_matrix, render, regex_of. rewrite !flat_map_map.
     apply flat_map_ext. intros p. unfold item_at, count_row at 1. rewrite row_index_gt_map. reflexivity.
   - intros acc row. unfold render_item. cbn [fst snd].
-    repeat match goal with |- context [if ?c then _ else _] => destruct c end;
-      rewrite ?app_nil_r, <- ?app_assoc; reflexivity.
+    split_ifs; cbn [negb] in *; rewrite ?app_nil_r, <- ?app_assoc; first [reflexivity | exfalso; lia | exfalso; congruence].
 Qed.
 
 Theorem gen_seqs_to_consensus_model seqs : gen_seqs_to_consensus seqs = consensus seqs.
@@ -56,6 +68,5 @@ Proof.
     unfold row_idxmax, count_row. rewrite row_argmax_map.
     destruct (argmax_first (cnt seqs p) (alphabet seqs)); reflexivity.
   - intros acc row.
-    repeat match goal with |- context [if ?c then _ else _] => destruct c end;
-      rewrite ?app_nil_r, <- ?app_assoc; reflexivity.
+    split_ifs; cbn [negb] in *; rewrite ?app_nil_r, <- ?app_assoc; first [reflexivity | exfalso; lia | exfalso; congruence].
 Qed.
